@@ -56,6 +56,8 @@ Resolved(r, i, t) ==
 ConvFailed(e) ==
   LET in == e["in"]  t == e.target  r == e.r IN
   (IF \E x \in {r, e.r2, e.back} : ~x.ok /\ Has(x, "fail") /\ x.fail = "panic" THEN {"C08.NoPanic"} ELSE {})
+  \* the converted value (and its type) reports the same after the conversions as before
+  \cup (IF Has(e, "iv") /\ e.iv # e.iv2 THEN {"C20.Immutable"} ELSE {})
   \cup (IF e.safe = "panic" \/ e.unsafe = "panic" THEN {"C08.NoPanic"} ELSE {})
   \cup (IF e.safe # "nil" /\ e.unsafe = "nil" THEN {"C08.SafeSubsetUnsafe"} ELSE {})
   \cup (IF e.safe = "err" /\ ~HasDyn(t) THEN {"C08.SafeIsTotal"} ELSE {})
